@@ -11,7 +11,7 @@ LEVEL_TEXT = (
     "`for`, compound assignments and `++`/`--` expand to exactly the stated trees (symbolic result terms of the shortcut functions,"
     " builders inlined); every compound-assignment token uses the opcode of its infix token; loop and branch productions pass"
     " their parts to the builders in the right positions; the lifting discipline of C12.2 (branch targets, fall-through sets, source order);"
-    " the AST-to-IR operator and kind tables are the identity on names."
+    " the AST-to-IR operator and kind tables are the identity on names; the conversion of every node kind keeps each child in its place (evaluated with marker children)."
 )
 NOT_DECIDED = "the path correspondence between structured execution and CFG walks for every program and decision sequence (translation validation; a different family)."
 TRUSTED = ["syn parser", "LALRPOP grammar reader (rules/grammar.py)", "term extractor (rules/terms.py)"]
